@@ -405,8 +405,9 @@ Definition next_marker (s : mstate) (p : list byte) : ures mstate merr :=
   match nm p (discarded s) 0 0 with
   | NM_more disc n => More (set_discarded disc s) n
   | NM_found c disc n =>
-      let s1 := if disc =? 0 then s
-                else set_discarded 0 (add_warning (JWRN_EXTRANEOUS_DATA, disc, c) s) in
+      let s0 := set_discarded disc s in      (* the C code updates the field in place *)
+      let s1 := if disc =? 0 then s0
+                else set_discarded 0 (add_warning (JWRN_EXTRANEOUS_DATA, disc, c) s0) in
       Done (set_unread c s1) n 0
   end.
 
@@ -451,38 +452,61 @@ Definition save_marker (s : mstate) (p : list byte) : ures mstate merr :=
 (* -------------------------------------------------------- read_markers *)
 Definition after_marker : commit := set_unread 0.
 
-Definition marker_unit (s : mstate) (p : list byte) : ures mstate merr :=
-  if negb (halted s =? 0) then Halt else
-  let m := unread_marker s in
+(* the switch of read_markers: which routine runs in state s *)
+Inductive branch :=
+| BHalt                                        (* JPEG_REACHED_SOS / JPEG_REACHED_EOI already returned *)
+| BNext                                        (* next_marker *)
+| BRoutine (m : routine) (after : commit)      (* INPUT_VARS routine, then unread_marker = 0 *)
+| BPure (f : mstate -> mstate + merr)          (* parameterless markers *)
+| BFail (e : merr)
+| BSave.                                       (* save_marker *)
+
+Definition select' (hlt m : Z) (sawsoi sawsof : bool) (procs : list nat) (ncomp : Z) (ids : list Z) : branch :=
+  if negb (hlt =? 0) then BHalt else
   if m =? 0 then
-    if saw_SOI s then next_marker s p else run_routine first_marker (fun s => s) s p
+    if sawsoi then BNext else BRoutine first_marker (fun s => s)
   else if m =? 216 then                      (* SOI *)
-    match get_soi s with inl s' => Done (after_marker s') 0 0 | inr e => Fail e end
-  else if (m =? 192) || (m =? 193) then run_routine (get_sof (saw_SOF s) 0 0 0) after_marker s p
-  else if m =? 194 then run_routine (get_sof (saw_SOF s) 1 0 0) after_marker s p
-  else if m =? 195 then run_routine (get_sof (saw_SOF s) 0 1 0) after_marker s p
-  else if m =? 201 then run_routine (get_sof (saw_SOF s) 0 0 1) after_marker s p
-  else if m =? 202 then run_routine (get_sof (saw_SOF s) 1 0 1) after_marker s p
-  else if m =? 203 then run_routine (get_sof (saw_SOF s) 0 1 1) after_marker s p
+    BPure (fun s => match get_soi s with inl s' => inl (after_marker s') | inr e => inr e end)
+  else if (m =? 192) || (m =? 193) then BRoutine (get_sof sawsof 0 0 0) after_marker
+  else if m =? 194 then BRoutine (get_sof sawsof 1 0 0) after_marker
+  else if m =? 195 then BRoutine (get_sof sawsof 0 1 0) after_marker
+  else if m =? 201 then BRoutine (get_sof sawsof 0 0 1) after_marker
+  else if m =? 202 then BRoutine (get_sof sawsof 1 0 1) after_marker
+  else if m =? 203 then BRoutine (get_sof sawsof 0 1 1) after_marker
   else if (m =? 197) || (m =? 198) || (m =? 199) || (m =? 200) || (m =? 205) || (m =? 206) || (m =? 207)
-       then Fail E_SOF_UNSUPPORTED
+       then BFail E_SOF_UNSUPPORTED
   else if m =? 218 then                      (* SOS: return JPEG_REACHED_SOS *)
-    run_routine (get_sos (saw_SOF s) (cget G_SC S_NCOMP (cells s)) (nth G_ID (cells s) []))
-                (fun s => set_halted 1 (after_marker s)) s p
-  else if m =? 217 then Done (set_halted 2 (after_marker s)) 0 0      (* EOI *)
-  else if m =? 204 then Fail E_ARITH_UNMODELLED                       (* DAC *)
-  else if m =? 196 then run_routine get_dht after_marker s p
-  else if m =? 219 then run_routine get_dqt after_marker s p
-  else if m =? 221 then run_routine get_dri after_marker s p
+    BRoutine (get_sos sawsof ncomp ids) (fun s => set_halted 1 (after_marker s))
+  else if m =? 217 then BPure (fun s => inl (set_halted 2 (after_marker s)))      (* EOI *)
+  else if m =? 204 then BFail E_ARITH_UNMODELLED                                  (* DAC *)
+  else if m =? 196 then BRoutine get_dht after_marker
+  else if m =? 219 then BRoutine get_dqt after_marker
+  else if m =? 221 then BRoutine get_dri after_marker
   else if ((224 <=? m) && (m <=? 239)) || (m =? 254) then
-    match nth (proc_index m) (proc s) 0%nat with
-    | 0%nat => run_routine skip_variable after_marker s p
-    | 1%nat => run_routine (get_interesting_appn m) after_marker s p
-    | _ => save_marker s p
+    match nth (proc_index m) procs 0%nat with
+    | 0%nat => BRoutine skip_variable after_marker
+    | 1%nat => BRoutine (get_interesting_appn m) after_marker
+    | _ => BSave
     end
-  else if ((208 <=? m) && (m <=? 215)) || (m =? 1) then Done (after_marker s) 0 0   (* RSTn, TEM *)
-  else if m =? 220 then run_routine skip_variable after_marker s p                  (* DNL *)
-  else Fail E_UNKNOWN_MARKER.
+  else if ((208 <=? m) && (m <=? 215)) || (m =? 1) then BPure (fun s => inl (after_marker s))  (* RSTn, TEM *)
+  else if m =? 220 then BRoutine skip_variable after_marker                      (* DNL *)
+  else BFail E_UNKNOWN_MARKER.
+
+Definition select (s : mstate) : branch :=
+  select' (halted s) (unread_marker s) (saw_SOI s) (saw_SOF s) (proc s)
+          (cget G_SC S_NCOMP (cells s)) (nth G_ID (cells s) []).
+
+Definition exec (b : branch) (s : mstate) (p : list byte) : ures mstate merr :=
+  match b with
+  | BHalt => Halt
+  | BNext => next_marker s p
+  | BRoutine m after => run_routine m after s p
+  | BPure f => match f s with inl s' => Done s' 0 0 | inr e => Fail e end
+  | BFail e => Fail e
+  | BSave => save_marker s p
+  end.
+
+Definition marker_unit (s : mstate) (p : list byte) : ures mstate merr := exec (select s) s p.
 
 Definition marker_slack (s : mstate) : nat :=
   if negb (halted s =? 0) then 0%nat else if unread_marker s =? 0 then 0%nat else 1%nat.
